@@ -1,3 +1,149 @@
 import Holpy.Common.Sexp
-/- stub: replaced when the C19 model is built -/
-def main : IO Unit := Holpy.lineLoop (fun _ => "bad-op")
+import Holpy.C19.Model
+import Holpy.C19.Parser
+/-
+Line protocol for the C19 model (one s-expression in, one out).
+
+  EXPR  = (v NAME) | (c NUM DEN) | (+ A B) | (- A B) | (* A B) | (/ A B) | (^ A B) | (neg A)
+        | (f0 NAME) | (f1 NAME A) | (int V LO HI BODY) | (at V LO HI BODY) | (d V BODY)
+  BOUND = -oo | oo | (NUM DEN)         IVAL = (BOUND BOUND T|F T|F)      -- (lo hi left_open right_open)
+
+  (deriv V EXPR)        -> (ok EXPR) | raises
+  (print EXPR)          -> (str ATOM) (tok ATOM ...)      printed string (percent-encoded), and whether
+                                                          lexing it gives the printer's token list: T|F
+  (parse ATOM)          -> (ok EXPR) | fail               parser model on a percent-encoded string
+  (iadd I J) (isub I J) (ineg I) (imul I J) (iinv I) (idiv I J) (ipow I N) -> IVAL | raises
+-/
+open Holpy Holpy.C19
+
+namespace Holpy.C19.Driver
+
+/-- percent-decoding of harness/common/sexp.py (`%e` = empty, `%<hex>%` = one character). -/
+def decAtom (a : String) : String :=
+  if a == "%e" then "" else
+  let rec go (cs : List Char) (acc : String) (hex : Option String) : String :=
+    match cs, hex with
+    | [], _ => acc
+    | '%' :: rest, none => go rest acc (some "")
+    | '%' :: rest, some h =>
+      let n := h.toList.foldl (fun acc c =>
+        let d := if c.isDigit then c.toNat - '0'.toNat
+                 else if 'a' ≤ c && c ≤ 'f' then c.toNat - 'a'.toNat + 10
+                 else if 'A' ≤ c && c ≤ 'F' then c.toNat - 'A'.toNat + 10 else 0
+        acc * 16 + d) 0
+      go rest (acc.push (Char.ofNat n)) none
+    | c :: rest, none => go rest (acc.push c) none
+    | c :: rest, some h => go rest acc (some (h.push c))
+  go a.toList "" none
+
+def safeChars : List Char :=
+  "abcdefghijklmnopqrstuvwxyzABCDEFGHIJKLMNOPQRSTUVWXYZ0123456789_-+.'?:=<>!*/&|~^@#$,;[]{}".toList
+
+def hexOf (n : Nat) : String := String.ofList (Nat.toDigits 16 n)
+
+def encAtom (s : String) : String :=
+  if s == "" then "%e" else
+  s.toList.foldl (fun acc c => if safeChars.contains c then acc.push c else acc ++ "%" ++ hexOf c.toNat ++ "%") ""
+
+def opOf : String → Option BinOp
+  | "+" => some .add | "-" => some .sub | "*" => some .mul | "/" => some .div | "^" => some .pow
+  | _ => none
+
+def mkRat (n : Int) (d : Nat) : Rat := (n : Rat) / (d : Rat)
+
+partial def exprOf : Sexp → Option Expr
+  | .list [.atom "v", .atom n] => some (.var (decAtom n))
+  | .list [.atom "c", n, d] => do some (.const (mkRat (← n.toInt?) (← d.toNat?)))
+  | .list [.atom "neg", a] => do some (.neg (← exprOf a))
+  | .list [.atom "f0", .atom n] => some (.fn0 (decAtom n))
+  | .list [.atom "f1", .atom n, a] => do some (.fn1 (decAtom n) (← exprOf a))
+  | .list [.atom "int", .atom v, lo, hi, b] => do some (.integral (decAtom v) (← exprOf lo) (← exprOf hi) (← exprOf b))
+  | .list [.atom "at", .atom v, lo, hi, b] => do some (.evalAt (decAtom v) (← exprOf lo) (← exprOf hi) (← exprOf b))
+  | .list [.atom "d", .atom v, b] => do some (.deriv (decAtom v) (← exprOf b))
+  | .list [.atom o, a, b] => do some (.op (← opOf o) (← exprOf a) (← exprOf b))
+  | _ => none
+
+def exprTo : Expr → Sexp
+  | .var n => .list [.atom "v", .atom (encAtom n)]
+  | .const q => .list [.atom "c", Sexp.ofInt q.num, Sexp.ofNat q.den]
+  | .op o a b => .list [.atom (opStr o), exprTo a, exprTo b]
+  | .neg a => .list [.atom "neg", exprTo a]
+  | .fn0 n => .list [.atom "f0", .atom (encAtom n)]
+  | .fn1 n a => .list [.atom "f1", .atom (encAtom n), exprTo a]
+  | .integral v lo hi b => .list [.atom "int", .atom (encAtom v), exprTo lo, exprTo hi, exprTo b]
+  | .evalAt v lo hi b => .list [.atom "at", .atom (encAtom v), exprTo lo, exprTo hi, exprTo b]
+  | .deriv v b => .list [.atom "d", .atom (encAtom v), exprTo b]
+
+def boundOf : Sexp → Option Bound
+  | .atom "-oo" => some .negInf
+  | .atom "oo" => some .posInf
+  | .list [n, d] => do some (.fin (mkRat (← n.toInt?) (← d.toNat?)))
+  | _ => none
+
+def boundTo : Bound → Sexp
+  | .negInf => .atom "-oo"
+  | .posInf => .atom "oo"
+  | .fin q => .list [Sexp.ofInt q.num, Sexp.ofNat q.den]
+
+def ivalOf : Sexp → Option Ival
+  | .list [lo, hi, l, r] => do some ⟨← boundOf lo, ← boundOf hi, ← l.toBool?, ← r.toBool?⟩
+  | _ => none
+
+def ivalTo (i : Ival) : Sexp := .list [boundTo i.lo, boundTo i.hi, Sexp.ofBool i.lopen, Sexp.ofBool i.ropen]
+
+def ivalOptTo : Option Ival → String
+  | some i => toString (ivalTo i)
+  | none => "raises"
+
+def handle (line : String) : String :=
+  match Sexp.parse line with
+  | some (.list [.atom "deriv", .atom v, e]) =>
+    match exprOf e with
+    | some e =>
+      let v := decAtom v
+      if derivOk v e then toString (Sexp.list [.atom "ok", exprTo (derivM v e)]) else "raises"
+    | none => "bad-op"
+  | some (.list [.atom "print", e]) =>
+    match exprOf e with
+    | some e =>
+      let s := pp e
+      let agree := (lex s == some (ppT e))
+      toString (Sexp.list [.atom "str", .atom (encAtom s), Sexp.ofBool agree])
+    | none => "bad-op"
+  | some (.list [.atom "parse", .atom s]) =>
+    match parseStr (decAtom s) with
+    | some e => toString (Sexp.list [.atom "ok", exprTo e])
+    | none => "fail"
+  | some (.list [.atom "iadd", i, j]) =>
+    match ivalOf i, ivalOf j with
+    | some i, some j => toString (ivalTo (Ival.add i j))
+    | _, _ => "bad-op"
+  | some (.list [.atom "isub", i, j]) =>
+    match ivalOf i, ivalOf j with
+    | some i, some j => toString (ivalTo (Ival.sub i j))
+    | _, _ => "bad-op"
+  | some (.list [.atom "ineg", i]) =>
+    match ivalOf i with
+    | some i => toString (ivalTo (Ival.neg i))
+    | _ => "bad-op"
+  | some (.list [.atom "imul", i, j]) =>
+    match ivalOf i, ivalOf j with
+    | some i, some j => ivalOptTo (Ival.mul i j)
+    | _, _ => "bad-op"
+  | some (.list [.atom "iinv", i]) =>
+    match ivalOf i with
+    | some i => toString (ivalTo (Ival.inverse i))
+    | _ => "bad-op"
+  | some (.list [.atom "idiv", i, j]) =>
+    match ivalOf i, ivalOf j with
+    | some i, some j => ivalOptTo (Ival.div i j)
+    | _, _ => "bad-op"
+  | some (.list [.atom "ipow", i, n]) =>
+    match ivalOf i, n.toNat? with
+    | some i, some n => toString (ivalTo (Ival.powNat i n))
+    | _, _ => "bad-op"
+  | _ => "bad-op"
+
+end Holpy.C19.Driver
+
+def main : IO Unit := Holpy.lineLoop Holpy.C19.Driver.handle
